@@ -14,3 +14,6 @@ open SteelVerif.C19
 #print axioms heap_bounded
 #print axioms run_bounded
 #print axioms markedCount_le_reachable
+#print axioms root_token_release
+#print axioms root_token_live
+#print axioms release_under_current_generation_leaks
